@@ -199,6 +199,11 @@ func (s *shaper) tx(kind string, huge bool) core.Transaction {
 	r := s.rng
 	cd := func(field string) []felt.Felt {
 		if huge {
+			if r.IntN(3) == 0 {
+				// beyond 2^17 elements: real calldata / Sierra programs of that size exist, and
+				// decoder limits on array lengths sit at such powers of two
+				return s.feltsN(131073+r.IntN(9000), false)
+			}
 			return s.feltsN(20000, false)
 		}
 		return s.felts(field)
@@ -640,6 +645,9 @@ func (s *shaper) sierra() *core.SierraClass {
 	}
 	if r.IntN(10) == 0 {
 		c.Program = felt.Slice[felt.Felt](s.feltsN(300+r.IntN(70000), false)) // array headers of 2 and 4 length bytes
+		if r.IntN(4) == 0 {
+			c.Program = felt.Slice[felt.Felt](s.feltsN(131072+r.IntN(3)+r.IntN(2)*r.IntN(100000), false)) // around and beyond 2^17 elements
+		}
 	}
 	if s.coin("Sierra.Compiled", false) {
 		cc := &core.CasmClass{
